@@ -38,6 +38,27 @@ def Terms (scopeOk : Nat → Bool) (reg : Registry) (ident : Option Ident) (req 
   (∀ s, s ∈ scopes ↔
     s ∈ req.scope ∨ ∃ g m, (g, m) ∈ c.supScopeMaps ∧ g ∈ i.memberOf ∧ s ∈ m)
 
+/-- `Terms`, spelled out (so that the audited statement hash covers its content). -/
+theorem terms_def (scopeOk : Nat → Bool) (reg : Registry) (ident : Option Ident) (req : Request)
+    (c : Client) (i : Ident) (chal : Option Nat) (uri : Nat) (scopes : List Nat) :
+    Terms scopeOk reg ident req c i chal uri scopes ↔
+      (rsSetGet reg req.clientId = some c ∧ (req.clientId.map Char.toLower, c) ∈ reg ∧
+      req.responseType = .code ∧
+      (req.redirectUri.atom ∈ c.redirectUris ∨ req.redirectUri.atom ∈ c.opaqueOrigins ∨
+        (checkIsLoopback req.redirectUri = true ∧ c.ctype = .pub true)) ∧
+      (c.originSecureRequired = true →
+        req.redirectUri.atom ∈ c.opaqueOrigins ∨ checkIsLoopback req.redirectUri = true ∨
+          req.redirectUri.https = true) ∧
+      ident = some i ∧ i.kind = .user ∧ i.uuid ≠ uuidAnonymous ∧
+      req.scope ≠ [] ∧
+      (∀ s ∈ req.scope, scopeOk s = true ∧ ∃ g m, (g, m) ∈ c.scopeMaps ∧ g ∈ i.memberOf ∧ s ∈ m) ∧
+      (∀ pk, req.pkce = some pk → pk.isS256 = true) ∧
+      (req.pkce = none → ∃ q, c.ctype = .basic false q) ∧
+      chal = req.pkce.map (·.challenge) ∧ uri = req.redirectUri.atom ∧
+      (∀ s, s ∈ scopes ↔
+        s ∈ req.scope ∨ ∃ g m, (g, m) ∈ c.supScopeMaps ∧ g ∈ i.memberOf ∧ s ∈ m)) :=
+  Iff.rfl
+
 /-- Whatever `finishStage` grants carries the challenge, URI and granted scopes it was given, for
 the identity it was given. -/
 theorem finishStage_grant {c : Client} {i : Ident} {req : Request} {mode : SupportedResponseMode}
